@@ -1,20 +1,28 @@
 /-
   Props/C08Interval.lean — property theorems for the interval-join clause of C08:
   "the interval join outputs exactly the same-key pairs whose timestamps satisfy l-lower ≤ r ≤ l+upper".
-  Model: `Model/IntervalJoin.lean` (`IntervalJoin::next` / `advance`, src/operator/interval_join.rs:84-191).
+  Model: `Model/IntervalJoin.lean` (`IntervalJoin::next` / `advance`, src/operator/interval_join.rs:84-191, as
+  of /repo 928fdec: `saturating_sub/saturating_add` bounds, `last_seen` starts at / is reset to `i64::MIN`).
   Vocabulary and helper lemmas: `Lemmas/IntervalJoin.lean` —
     `run` (fold of `step`), `anyPanic` (would an `assert!`/`panic!` fire), `lefts` / `rights` (the
     `(ts, key, l)` / `(key, ts, r)` elements of a trace, arrival order), `pairs` (the `(ts, key, l, r)` tuples of
     an output trace), `stamps` (timestamps carried by data AND watermarks, in order), `isBody`
-    (`Timestamped` / `Watermark` / `FlushBatch`), `isOutBody` (`Timestamped` / `FlushBatch`), `specZ` (the
-    specification over ℤ), `spec` (the specification with the code's saturating `checked_sub/checked_add`).
+    (`Timestamped` / `Watermark` / `FlushBatch`), `isOutBody` (`Timestamped` / `FlushBatch`), `spec` (the
+    specification with both bounds saturated to i64: `clamp (l.ts - lb) ≤ r.ts ≤ clamp (l.ts + ub)`), `specZ`
+    (the specification over ℤ, no saturation).
+
+  Which statement is proved. `intervalJoin_correct` is about `spec`: for ALL bounds and all i64 timestamps the
+  output is the join over the *saturated* interval. `spec` and `specZ` coincide (`intervalJoin_correct_int`)
+  whenever, for every left element, `l.ts - lb ≤ i64::MAX` and `i64::MIN ≤ l.ts + ub` — overflows in the two
+  other directions are harmless — in particular for non-negative bounds; outside of that they differ only on a
+  right element at exactly `i64::MAX` (resp. `i64::MIN`), which the saturated interval contains.
 
   The operator sits behind a `Reorder` (src/operator/mod.rs:1506-1509 and 2529-2531:
   `merge_distinct → Reorder → IntervalJoin`). What the proof needs from it is exactly
-  `((0 : Int) :: stamps es).Pairwise (· ≤ ·)`: the timestamps carried by data elements of BOTH sides and by
-  watermarks, in arrival order, are non-decreasing (ties allowed) and non-negative (`last_seen` starts at 0 and
-  `assert!(ts >= self.last_seen)`, interval_join.rs:165, 175). `intervalJoin_after_reorder` discharges this
-  from C16 (`reorder_sorted`) for every watermark-safe input.
+  `(stamps es).Pairwise (· ≤ ·)`: the timestamps carried by data elements of BOTH sides and by watermarks, in
+  arrival order, are non-decreasing (ties allowed); `intervalJoin_after_reorder` discharges this from C16
+  (`reorder_sorted`) for every watermark-safe input. `∀ t ∈ stamps es, TS_MIN ≤ t` only says that timestamps
+  are `i64`s (the model's `Int` is unbounded; `last_seen` starts at `i64::MIN`).
 -/
 import NoirVerif.Lemmas.IntervalJoin
 import NoirVerif.Props.C16Reorder
@@ -23,52 +31,78 @@ namespace Noir.IntervalJoin
 variable {κ α β : Type} [DecidableEq κ]
 
 /-- **C08 (interval join, one iteration).** Let `es` be the body of an iteration (timestamped
-    `(key, Left l | Right r)` elements, watermarks, `FlushBatch`es) whose carried timestamps are non-negative
-    and non-decreasing in arrival order, all within `i64`, and let the bounds be `i64`s such that
-    `l.ts - lower` does not overflow upwards for the left elements (`hsat`; automatic when `0 ≤ lower`,
-    see `intervalJoin_correct_nonneg`). Then `IntervalJoin`, started in its initial state on `es` followed
-    by `FlushAndRestart`,
+    `(key, Left l | Right r)` elements, watermarks, `FlushBatch`es) whose carried timestamps (any `i64`s,
+    negative ones included) are non-decreasing in arrival order, and let the bounds be arbitrary. Then
+    `IntervalJoin`, started in its initial state on `es` followed by `FlushAndRestart`,
     * hits no `assert!` / `panic!`,
     * emits only `Timestamped` tuples and the forwarded `FlushBatch`es, then `FlushAndRestart`,
     * the tuples are — even in this order, a fortiori as a multiset — exactly
-      `{ (max l.ts r.ts, key, l, r) | l ∈ Left, r ∈ Right, same key, l.ts - lower ≤ r.ts ≤ l.ts + upper }`
-      (`specZ`: one tuple per matching pair of *occurrences*, so every pair exactly once),
+      `{ (max l.ts r.ts, key, l, r) | l ∈ Left, r ∈ Right, same key, sat(l.ts - lower) ≤ r.ts ≤ sat(l.ts + upper) }`
+      (`spec`, `sat` = saturation to i64; one tuple per matching pair of *occurrences*, so every pair
+      exactly once),
     * and ends in its initial state. -/
 theorem intervalJoin_correct (lb ub : Int) (es : List (Elem (κ × (α ⊕ β))))
     (hbody : ∀ e ∈ es, isBody e = true)
-    (hsorted : ((0 : Int) :: stamps es).Pairwise (· ≤ ·))
-    (hi64 : ∀ t ∈ stamps es, t ≤ TS_MAX) (hlb : lb ≤ TS_MAX) (hub : TS_MIN ≤ ub)
-    (hsat : ∀ l ∈ lefts es, l.1 - lb ≤ TS_MAX) :
+    (hsorted : (stamps es).Pairwise (· ≤ ·))
+    (hi64 : ∀ t ∈ stamps es, TS_MIN ≤ t) :
+    ∃ outs : List (Elem (κ × α × β)),
+      run lb ub State.init (es ++ [.far]) = (State.init, outs ++ [.far])
+        ∧ (∀ o ∈ outs, isOutBody o = true)
+        ∧ pairs outs = spec lb ub (lefts es) (rights es)
+        ∧ (pairs outs).Perm (spec lb ub (lefts es) (rights es))
+        ∧ anyPanic lb ub (State.init : State κ α β) (es ++ [.far]) = false := by
+  obtain ⟨outs, h1, h2, h3, h4⟩ := run_iteration (lowerMono_all lb) es hbody
+    (List.pairwise_cons.mpr ⟨hi64, hsorted⟩) (fun _ _ => trivial)
+  exact ⟨outs, h1, h3, h2, h2 ▸ List.Perm.refl _, h4⟩
+
+/-- **C08 (interval join, plain integer arithmetic).** If moreover `l.ts - lower` never exceeds `i64::MAX`
+    and `l.ts + upper` never falls below `i64::MIN` (`hsat`), the tuples are exactly
+    `{ … | l.ts - lower ≤ r.ts ≤ l.ts + upper }` over ℤ (`specZ`). -/
+theorem intervalJoin_correct_int (lb ub : Int) (es : List (Elem (κ × (α ⊕ β))))
+    (hbody : ∀ e ∈ es, isBody e = true)
+    (hsorted : (stamps es).Pairwise (· ≤ ·))
+    (hi64 : ∀ t ∈ stamps es, TS_MIN ≤ t ∧ t ≤ TS_MAX)
+    (hsat : ∀ l ∈ lefts es, l.1 - lb ≤ TS_MAX ∧ TS_MIN ≤ l.1 + ub) :
     ∃ outs : List (Elem (κ × α × β)),
       run lb ub State.init (es ++ [.far]) = (State.init, outs ++ [.far])
         ∧ (∀ o ∈ outs, isOutBody o = true)
         ∧ pairs outs = specZ lb ub (lefts es) (rights es)
         ∧ (pairs outs).Perm (specZ lb ub (lefts es) (rights es))
         ∧ anyPanic lb ub (State.init : State κ α β) (es ++ [.far]) = false := by
-  have hnn : ∀ t ∈ stamps es, 0 ≤ t := (List.pairwise_cons.mp hsorted).1
-  have hL : ∀ l ∈ lefts es, 0 ≤ l.1 ∧ l.1 - lb ≤ TS_MAX :=
-    fun l hl => ⟨hnn _ (mem_lefts_stamps es l hl), hsat l hl⟩
-  obtain ⟨outs, h1, h2, h3, h4⟩ := run_iteration (lowerMono_of_nosat lb hlb) es hbody hsorted hL
-  have h2' : pairs outs = specZ lb ub (lefts es) (rights es) := by
-    rw [h2]
-    exact spec_eq_specZ lb ub hlb hub _ _ hL (fun r hr => hi64 _ (mem_rights_stamps es r hr))
-  exact ⟨outs, h1, h3, h2', h2' ▸ List.Perm.refl _, h4⟩
+  obtain ⟨outs, h1, h2, h3, _, h5⟩ := intervalJoin_correct lb ub es hbody hsorted (fun t ht => (hi64 t ht).1)
+  have h3' : pairs outs = specZ lb ub (lefts es) (rights es) := by
+    rw [h3]
+    exact spec_eq_specZ lb ub _ _ hsat (fun r hr => hi64 _ (mem_rights_stamps es r hr))
+  exact ⟨outs, h1, h2, h3', h3' ▸ List.Perm.refl _, h5⟩
 
-/-- … in particular for every non-negative `lower` bound (the documented use), with no further condition. -/
+/-- … in particular for non-negative bounds (the documented use), with no further condition. -/
 theorem intervalJoin_correct_nonneg (lb ub : Int) (es : List (Elem (κ × (α ⊕ β))))
     (hbody : ∀ e ∈ es, isBody e = true)
-    (hsorted : ((0 : Int) :: stamps es).Pairwise (· ≤ ·))
-    (hi64 : ∀ t ∈ stamps es, t ≤ TS_MAX) (hlb0 : 0 ≤ lb) (hlb : lb ≤ TS_MAX) (hub : TS_MIN ≤ ub) :
+    (hsorted : (stamps es).Pairwise (· ≤ ·))
+    (hi64 : ∀ t ∈ stamps es, TS_MIN ≤ t ∧ t ≤ TS_MAX) (hlb : 0 ≤ lb) (hub : 0 ≤ ub) :
     ∃ outs : List (Elem (κ × α × β)),
       run lb ub State.init (es ++ [.far]) = (State.init, outs ++ [.far])
         ∧ (∀ o ∈ outs, isOutBody o = true)
         ∧ pairs outs = specZ lb ub (lefts es) (rights es)
         ∧ (pairs outs).Perm (specZ lb ub (lefts es) (rights es))
         ∧ anyPanic lb ub (State.init : State κ α β) (es ++ [.far]) = false :=
-  intervalJoin_correct lb ub es hbody hsorted hi64 hlb hub (fun l hl => by
+  intervalJoin_correct_int lb ub es hbody hsorted hi64 (fun l hl => by
     have := hi64 _ (mem_lefts_stamps es l hl); omega)
 
-/-- What `specZ` contains (what "the interval join" means). -/
+/-- What `spec` contains (what "the interval join" means, bounds saturated to i64). -/
+theorem spec_mem (lb ub : Int) (L : List (Int × κ × α)) (R : List (κ × Int × β)) (o : Int × κ × α × β) :
+    o ∈ spec lb ub L R ↔
+      ∃ l ∈ L, ∃ r ∈ R, r.1 = l.2.1 ∧ clamp (l.1 - lb) ≤ r.2.1 ∧ r.2.1 ≤ clamp (l.1 + ub)
+        ∧ o = (max r.2.1 l.1, l.2.1, l.2.2, r.2.2) := by
+  simp only [spec, lowerOf, upperOf, List.mem_flatMap, List.mem_map, List.mem_filter, Bool.and_eq_true,
+    decide_eq_true_eq]
+  constructor
+  · rintro ⟨l, hl, r, ⟨hr, ⟨h1, h2⟩, h3⟩, rfl⟩
+    exact ⟨l, hl, r, hr, h1, of_decide_eq_true h2, of_decide_eq_true h3, rfl⟩
+  · rintro ⟨l, hl, r, hr, h1, h2, h3, rfl⟩
+    exact ⟨l, hl, r, ⟨hr, ⟨h1, decide_eq_true h2⟩, decide_eq_true h3⟩, rfl⟩
+
+/-- What `specZ` contains (the interval join over ℤ). -/
 theorem specZ_mem (lb ub : Int) (L : List (Int × κ × α)) (R : List (κ × Int × β)) (o : Int × κ × α × β) :
     o ∈ specZ lb ub L R ↔
       ∃ l ∈ L, ∃ r ∈ R, r.1 = l.2.1 ∧ l.1 - lb ≤ r.2.1 ∧ r.2.1 ≤ l.1 + ub
@@ -80,28 +114,8 @@ theorem specZ_mem (lb ub : Int) (L : List (Int × κ × α)) (R : List (κ × In
   · rintro ⟨l, hl, r, hr, h1, h2, h3, rfl⟩
     exact ⟨l, hl, r, ⟨hr, ⟨h1, h2⟩, h3⟩, rfl⟩
 
-/-- **C08 (interval join, any bounds, the code's own saturating arithmetic).** For arbitrary integer
-    bounds, the only thing needed beyond sortedness is that the saturating `lower = checked_sub(l.ts,
-    lower_bound).unwrap_or(MIN)` is monotone along the left elements (it is what justifies the eviction
-    `pop_front while right_ts < lower`, interval_join.rs:104-110); then the output is `spec`, the
-    specification written with the same saturating bounds. -/
-theorem intervalJoin_correct_saturating (lb ub : Int) (es : List (Elem (κ × (α ⊕ β))))
-    (hbody : ∀ e ∈ es, isBody e = true)
-    (hsorted : ((0 : Int) :: stamps es).Pairwise (· ≤ ·))
-    (hmono : ∀ l ∈ lefts es, ∀ l' ∈ lefts es, l.1 ≤ l'.1 → lowerOf l.1 lb ≤ lowerOf l'.1 lb) :
-    ∃ outs : List (Elem (κ × α × β)),
-      run lb ub State.init (es ++ [.far]) = (State.init, outs ++ [.far])
-        ∧ (∀ o ∈ outs, isOutBody o = true)
-        ∧ pairs outs = spec lb ub (lefts es) (rights es)
-        ∧ anyPanic lb ub (State.init : State κ α β) (es ++ [.far]) = false := by
-  have hm : LowerMono (fun t => ∃ l ∈ lefts es, l.1 = t) lb := by
-    rintro t t' ⟨l, hl, rfl⟩ ⟨l', hl', rfl⟩ hle
-    exact hmono l hl l' hl' hle
-  obtain ⟨outs, h1, h2, h3, h4⟩ := run_iteration hm es hbody hsorted (fun l hl => ⟨l, hl, rfl⟩)
-  exact ⟨outs, h1, h3, h2, h4⟩
-
 /-- **C08 (nothing is carried over).** `FlushAndRestart` puts the operator back into its initial state
-    (`left`, `right` empty, `last_seen = 0`) from EVERY state — the two `assert!`s of interval_join.rs:154-155
+    (`left`, `right` empty, `last_seen = i64::MIN`) from EVERY state — the two `assert!`s of interval_join.rs:154-155
     hold because `advance` drains `left` completely at a restart and then clears `right` — so every
     iteration is joined on its own. -/
 theorem intervalJoin_resets (lb ub : Int) (s : State κ α β) (es rest : List (Elem (κ × (α ⊕ β)))) :
@@ -129,17 +143,16 @@ theorem intervalJoin_preserves_wmsafe (lb ub : Int) (es : List (Elem (κ × (α 
 
 /-- **C08 ∘ C16 (the composition `Reorder → IntervalJoin` as built by `interval_join`).** For ANY arrival
     order `xs` of the merged, keyed stream of one iteration that respects the watermark contract (no
-    timestamp at or below an earlier watermark; non-negative timestamps within `i64`; no untimestamped
-    `Item`s), feeding the output of `Reorder` into `IntervalJoin` yields — as a multiset — exactly the
-    interval join of the left and right elements of `xs`, then `FlushAndRestart`; no `assert!` fires. -/
+    timestamp at or below an earlier watermark; no untimestamped `Item`s; timestamps any `i64`s), feeding
+    the output of `Reorder` into `IntervalJoin` yields — as a multiset — exactly the (saturated-interval)
+    join of the left and right elements of `xs`, then `FlushAndRestart`; no `assert!` fires. -/
 theorem intervalJoin_after_reorder (lb ub : Int) (xs : List (Elem (κ × (α ⊕ β))))
     (hbody : ∀ e ∈ xs, isBody e = true) (hsafe : wmSafeOk xs = true)
-    (hnn : ∀ t ∈ stamps xs, 0 ≤ t ∧ t ≤ TS_MAX) (hlb : lb ≤ TS_MAX) (hub : TS_MIN ≤ ub)
-    (hsat : ∀ l ∈ lefts xs, l.1 - lb ≤ TS_MAX) :
+    (hi64 : ∀ t ∈ stamps xs, TS_MIN ≤ t) :
     ∃ outs : List (Elem (κ × α × β)),
       run lb ub State.init (Reorder.run (xs ++ [.far])) = (State.init, outs ++ [.far])
         ∧ (∀ o ∈ outs, isOutBody o = true)
-        ∧ (pairs outs).Perm (specZ lb ub (lefts xs) (rights xs))
+        ∧ (pairs outs).Perm (spec lb ub (lefts xs) (rights xs))
         ∧ anyPanic lb ub (State.init : State κ α β) (Reorder.run (xs ++ [.far])) = false := by
   -- the reordered iteration is `ys ++ [far]`
   let ys := (Reorder.runFrom [] xs).2 ++ (Reorder.sort (Reorder.runFrom [] xs).1).map Reorder.emit
@@ -158,49 +171,54 @@ theorem intervalJoin_after_reorder (lb ub : Int) (xs : List (Elem (κ × (α ⊕
   have hst : stamps ys = Reorder.stamps (ys ++ [.far]) := by
     simp [stamps, Reorder.stamps, Elem.timestamp]
   have hstp : (stamps ys).Perm (stamps xs) := hperm.filterMap _
-  have hsorted : ((0 : Int) :: stamps ys).Pairwise (· ≤ ·) := by
-    refine List.pairwise_cons.mpr ⟨fun t ht => (hnn t (hstp.mem_iff.mp ht)).1, ?_⟩
-    rw [hst]; exact hsortedR
   obtain ⟨outs, h1, h2, h3, _, h5⟩ := intervalJoin_correct lb ub ys
-    (fun e he => hbody e (hperm.mem_iff.mp he)) hsorted
-    (fun t ht => (hnn t (hstp.mem_iff.mp ht)).2) hlb hub
-    (fun l hl => hsat l ((lefts_perm hperm).mem_iff.mp hl))
+    (fun e he => hbody e (hperm.mem_iff.mp he)) (by rw [hst]; exact hsortedR)
+    (fun t ht => hi64 t (hstp.mem_iff.mp ht))
   refine ⟨outs, by rw [hrun]; exact h1, h2, ?_, by rw [hrun]; exact h5⟩
   rw [h3]
-  have hlb' : ∀ (L : List (Int × κ × α)) (R : List (κ × Int × β)),
-      (∀ l ∈ L, 0 ≤ l.1 ∧ l.1 - lb ≤ TS_MAX) → (∀ r ∈ R, r.2.1 ≤ TS_MAX) →
-      specZ lb ub L R = spec lb ub L R := fun L R a b => (spec_eq_specZ lb ub hlb hub L R a b).symm
-  rw [hlb' (lefts ys) (rights ys)
-      (fun l hl => ⟨(hnn _ (hstp.mem_iff.mp (mem_lefts_stamps ys l hl))).1,
-        hsat l ((lefts_perm hperm).mem_iff.mp hl)⟩)
-      (fun r hr => (hnn _ (hstp.mem_iff.mp (mem_rights_stamps ys r hr))).2),
-    hlb' (lefts xs) (rights xs)
-      (fun l hl => ⟨(hnn _ (mem_lefts_stamps xs l hl)).1, hsat l hl⟩)
-      (fun r hr => (hnn _ (mem_rights_stamps xs r hr)).2)]
   exact spec_perm lb ub (lefts_perm hperm) (rights_perm hperm)
 
-/-- The side condition `hsat` of `intervalJoin_correct` is needed (only for a NEGATIVE `lower_bound` and
-    timestamps next to `i64::MAX`): `left_ts.checked_sub(lower_bound)` overflows UPWARDS, and
-    `.unwrap_or(Timestamp::MIN)` (interval_join.rs:87-89) then opens the interval downwards instead of
-    making it empty. With `lower = -1`, `upper = 0`, a right element at 5 and a left element at `i64::MAX`
-    the operator emits the pair although `MAX + 1 ≤ 5` is false. Replayed on the real operator
-    (`ivjoin --replay`, case `sat-1`): `T:(0,(1,100)):9223372036854775807`. -/
-theorem intervalJoin_saturation_counterexample :
+/-- Former witness of the saturation defect (fixed by /repo a398b65; with
+    `checked_sub(..).unwrap_or(MIN)` the pair `(1, 100)` was emitted): `lower = -1`, `upper = 0`, a right
+    element at 5 and a left element at `i64::MAX`. `MAX + 1` saturates to `MAX`, the interval `[MAX, MAX]`
+    does not contain 5: nothing is emitted, `spec` and `specZ` agree (first fixed case of the `ivjoin`
+    generator, same output from the real operator). -/
+example :
     let es : List (Elem (Nat × (Nat ⊕ Nat))) := [.ts (0, .inr 100) 5, .ts (0, .inl 1) TS_MAX]
+    (run (-1) 0 State.init (es ++ [.far])).2 = [.far]
+      ∧ spec (-1) 0 (lefts es) (rights es) = [] ∧ specZ (-1) 0 (lefts es) (rights es) = [] := by
+  decide
+
+/-- Former witness of the `last_seen = 0` defect (fixed by /repo 928fdec; the first element tripped
+    `assert!(ts >= self.last_seen)`): negative timestamps are joined like any others. -/
+example :
+    let es : List (Elem (Nat × (Nat ⊕ Nat))) := [.ts (0, .inr 100) (-7), .ts (0, .inl 1) (-5), .wm (-5)]
+    anyPanic 2 1 (State.init : State Nat Nat Nat) (es ++ [.far]) = false
+      ∧ (run 2 1 State.init (es ++ [.far])).2 = [.ts (0, 1, 100) (-5), .far]
+      ∧ specZ 2 1 (lefts es) (rights es) = [(-5, 0, 1, 100)] := by
+  decide
+
+/-- The one place where the saturated interval and the interval over ℤ differ: `l.ts - lower > i64::MAX`
+    and a right element at exactly `i64::MAX` (dually at `i64::MIN`). The operator implements `spec`. -/
+example :
+    let es : List (Elem (Nat × (Nat ⊕ Nat))) := [.ts (0, .inl 1) TS_MAX, .ts (0, .inr 100) TS_MAX]
     pairs (run (-1) 0 State.init (es ++ [.far])).2 = [(TS_MAX, 0, 1, 100)]
+      ∧ spec (-1) 0 (lefts es) (rights es) = [(TS_MAX, 0, 1, 100)]
       ∧ specZ (-1) 0 (lefts es) (rights es) = [] := by
   decide
 
 /-- Non-vacuity: a sorted iteration with ties, a watermark, a `FlushBatch`, two keys, pairs at both closed
     ends of the interval (`lower = 2`, `upper = 1`: `r.ts ∈ [l.ts - 2, l.ts + 1]`), one right element just
-    outside, one left element joined only at `FlushAndRestart`; it meets every hypothesis of
-    `intervalJoin_correct`, and the run is the one the real operator produces (`ivjoin --replay`). -/
+    outside, one left element joined only at `FlushAndRestart`, a negative timestamp; it meets every
+    hypothesis of `intervalJoin_correct_int`, and the run is the one the real operator produces
+    (`ivjoin --replay`). -/
 example :
     let es : List (Elem (Nat × (Nat ⊕ Nat))) :=
-      [.ts (0, .inr 100) 3, .ts (0, .inl 1) 5, .wm 5, .ts (0, .inr 101) 6, .flushBatch, .ts (0, .inr 102) 7,
-       .ts (1, .inr 103) 7, .ts (0, .inl 2) 9]
-    (∀ e ∈ es, isBody e = true) ∧ ((0 : Int) :: stamps es).Pairwise (· ≤ ·)
-      ∧ (∀ t ∈ stamps es, t ≤ TS_MAX) ∧ (∀ l ∈ lefts es, l.1 - 2 ≤ TS_MAX)
+      [.ts (1, .inr 99) (-4), .ts (0, .inr 100) 3, .ts (0, .inl 1) 5, .wm 5, .ts (0, .inr 101) 6, .flushBatch,
+       .ts (0, .inr 102) 7, .ts (1, .inr 103) 7, .ts (0, .inl 2) 9]
+    (∀ e ∈ es, isBody e = true) ∧ (stamps es).Pairwise (· ≤ ·)
+      ∧ (∀ t ∈ stamps es, TS_MIN ≤ t ∧ t ≤ TS_MAX)
+      ∧ (∀ l ∈ lefts es, l.1 - 2 ≤ TS_MAX ∧ TS_MIN ≤ l.1 + 1)
       ∧ (run 2 1 State.init (es ++ [.far])).2
           = [.flushBatch, .ts (0, 1, 100) 5, .ts (0, 1, 101) 6, .ts (0, 2, 102) 9, .far]
       ∧ specZ 2 1 (lefts es) (rights es) = [(5, 0, 1, 100), (6, 0, 1, 101), (9, 0, 2, 102)] := by
